@@ -275,6 +275,14 @@ class DictList(list):
         other : iterable
             other must contain only unique id's present in the list
         """
+        other = list(other)
+        # validate first, so that a missing or repeated item leaves the list unchanged
+        positions = set()
+        for item in other:
+            position = self.index(item)
+            if position in positions:
+                raise ValueError(f"{str(item)} is listed twice")
+            positions.add(position)
         for item in other:
             self.remove(item)
         return self
